@@ -184,7 +184,43 @@ package coins
 //@   trusted
 //@   # a ticker in use has a current (version 0) coin
 //@   ensures version == 0 && symTaken(c, symbol) ==> result != nil
+//@   ensures version == 0 ==> result == baseCoinOf(c, symbol)
+//@   ensures result != nil ==> allocated(result)
 //@   modifies coinsCache
+
+//@ # ---------------------------------------------------------------- C09/C22: re-creating a ticker archives the old coin durably
+//@ # baseCoinOf(c, sym): the current (version 0) coin of a ticker - ASSUMED to be what GetCoinBySymbol(sym, 0) returns.
+//@ # Coins.Commit writes a coin's record only if the coin is registered in c.dirty AND its own isDirty flag is set:
+//@ # after Recreate / RecreateToken the archived coin (whose version has been bumped) has both.
+//@ ghost baseCoinOf(c *Coins, sym types.CoinSymbol) *Model
+//@ func (*Coins).getBySymbol
+//@   trusted
+//@   modifies coinsCache
+//@ func (*Coins).setToMap
+//@   trusted
+//@   modifies coinsCache, mapof(c.list)
+//@ func (*Coins).markDirty
+//@   serves C09 C22
+//@   requires c != nil && c.dirty != nil
+//@   ensures registered: id in c.dirty
+//@   ensures kept: forall k types.CoinID :: old(k in c.dirty) ==> (k in c.dirty)
+//@   modifies mapof(c.dirty)
+//@ func (*Coins).Create
+//@   trusted
+//@   # ASSUMED summary: creating the new coin registers it and leaves every other coin's registration and flags alone
+//@   ensures kept: forall k types.CoinID :: old(k in c.dirty) ==> (k in c.dirty)
+//@   modifies coinExists, symTaken, coinVolume, coinReserve, coinMaxOf, coinModel, symInfoOf, ledgerVolume, ledgerDelta, coinsCache, coinsDirtyMarks, mapof(c.dirty), mapof(c.list)
+//@ func (*Coins).Recreate
+//@   serves C09 C22
+//@   let o = old(baseCoinOf(c, symbol))
+//@   requires c != nil && c.dirty != nil && c.bus != nil
+//@   ensures [C09,C22] archived: o.isDirty && (o.id in c.dirty)
+//@ func (*Coins).RecreateToken
+//@   serves C09 C22
+//@   let o = old(baseCoinOf(c, symbol))
+//@   requires c != nil && c.dirty != nil && c.bus != nil
+//@   assumespre (*Coins).CreateToken: the caller (RecreateCoinData / RecreateTokenData) has checked the new id, amounts and that the ticker is being re-created
+//@   ensures [C09,C22] archived: o.isDirty && (o.id in c.dirty)
 
 //@ # ---------------------------------------------------------------- lock discipline (C25)
 //@ guarded Coins.list, Coins.dirty, Coins.symbolsList, Coins.symbolsInfoList by lock
